@@ -12,7 +12,7 @@ import (
 // (prop-*: AddFact of a property fact - the parent set, a rule's disabled flag, the location's own
 // enabled flag and write key are facts too, and writing them through the facts API is a write like any other)
 var c19Mutating = []string{"addfact", "remfact", "addrule", "remrule", "enable", "setparents", "clear", "event-mutating",
-	"prop-parents", "prop-disabled", "prop-enabled", "prop-writekey", "prop-custom"}
+	"prop-parents", "prop-disabled", "prop-enabled", "prop-writekey", "prop-custom", "event-trigger-oneshot"}
 var c19Revealing = []string{"getfact", "search", "getrule", "searchrules", "listrules", "statesize", "query", "event", "event-trigger", "search-inherited", "searchrules-inherited", "listrules-inherited"}
 // (parentread / parentdisabled: L itself is open, its parent P is protected: what L inherits is the parent's to guard)
 var c19States = []string{"none", "write", "read", "both", "readonly", "disabled", "parentread", "parentdisabled"}
@@ -41,6 +41,7 @@ func c19Setup(p *h.Plan, state string) {
 		h.Op{K: "addfact", Loc: "L", Id: "f2", J: map[string]interface{}{"secret": "two", "n": "y"}},
 		h.Op{K: "addrule", Loc: "L", Id: "r1", J: map[string]interface{}{
 			"when": map[string]interface{}{"pattern": map[string]interface{}{"ping": "?p"}}, "action": map[string]interface{}{"code": "'r1'"}}},
+		h.Op{K: "addrule", Loc: "L", Id: "rs", J: map[string]interface{}{"schedule": "+1h", "action": map[string]interface{}{"code": "'rs'"}}},
 		h.Op{K: "addrule", Loc: "L", Id: "rm", J: map[string]interface{}{
 			"when": map[string]interface{}{"pattern": map[string]interface{}{"mutate": "?m"}},
 			"action": map[string]interface{}{"code": ActionCode([]h.Op{
@@ -126,6 +127,9 @@ func c19Op(kind, caller string, i int) h.Op {
 		op = h.Op{K: "searchrules", J: map[string]interface{}{"ping": "a"}, B: true}
 	case "listrules-inherited":
 		op = h.Op{K: "listrules", B: true}
+	case "event-trigger-oneshot":
+		// the tick of a one-shot scheduled rule: after its run the rule is removed - a write
+		op = h.Op{K: "event", J: map[string]interface{}{"trigger!": "rs"}}
 	case "event-trigger":
 		// an event that names the rule to run (the form a cron tick takes);
 		// it also carries what the rule's `when` asks for
@@ -146,7 +150,7 @@ func c19Base(state string) *h.Plan {
 	p.Cfg["state"] = state
 	p.Cfg["storage"] = "mem"
 	p.Cfg["locs"] = toIface([]string{"L", "P"})
-	p.Cfg["ids"] = toIface([]string{"f1", "f2", "f3", "r1", "r2", "rm", "byaction", "pf", "pr", "!f1.colour"})
+	p.Cfg["ids"] = toIface([]string{"f1", "f2", "f3", "r1", "r2", "rm", "byaction", "pf", "pr", "!f1.colour", "rs"})
 	p.Cfg["patterns"] = []interface{}{map[string]interface{}{"secret": "?s"}, map[string]interface{}{"rule": "?r"}, map[string]interface{}{"made": "?m"}}
 	p.Cfg["events"] = []interface{}{map[string]interface{}{"ping": "a"}}
 	return p
